@@ -7,6 +7,8 @@ import (
 	"fmt"
 	"strings"
 
+	"github.com/moorara/algo/grammar"
+
 	"verifharness/hx"
 )
 
@@ -155,4 +157,61 @@ func Rename(r *hx.Rand, g G, sc NameScheme, prefix bool) G {
 		}
 	}
 	return h
+}
+
+// ---------------------------------------------------------------- names that share a hash bucket
+
+// mixQP is the bit mixing symboltable's open-addressing tables apply to a key's hash before reducing it modulo the table
+// size (quadratic_hash_table.go: probe).
+func mixQP(h uint64) uint64 { return h ^ (h >> 20) ^ (h >> 12) ^ (h >> 7) ^ (h >> 4) }
+
+var bucketCache = map[string][]string{}
+
+// SameBucketNames returns n different names prefix+<number> whose hash — computed by CALLING the library's own hash function
+// for that kind of symbol ("nonterm": grammar.HashNonTerminal, "term": grammar.HashTerminal, "symbol-nonterm" /
+// "symbol-term": grammar.HashSymbol of the non-terminal / terminal) and mixed the way the quadratic-probing table mixes it —
+// has the same residue modulo every m in moduli.  With moduli = {31} the names start on one slot of the 31-slot table that
+// grammar.NewProductions (heads), the FIRST / FOLLOW tables and the LR automata start from, i.e. they share one probe path,
+// which visits only 16 different slots: 17 or more such keys fit only because the table grows at load factor 1/2.  {31, 67}
+// keeps them together after the first growth as well.  The search is brute force over the numbers 0, 1, 2, …
+// (about n·Πm hash calls) and memoised.
+func SameBucketNames(kind, prefix string, moduli []int, n int) []string {
+	key := fmt.Sprintf("%s|%s|%v", kind, prefix, moduli)
+	have := bucketCache[key]
+	if len(have) >= n {
+		return append([]string{}, have[:n]...)
+	}
+	hash := func(s string) uint64 {
+		switch kind {
+		case "term":
+			return grammar.HashTerminal(grammar.Terminal(s))
+		case "symbol-term":
+			return grammar.HashSymbol(grammar.Terminal(s))
+		case "symbol-nonterm":
+			return grammar.HashSymbol(grammar.NonTerminal(s))
+		}
+		return grammar.HashNonTerminal(grammar.NonTerminal(s))
+	}
+	same := func(a, b uint64) bool {
+		for _, m := range moduli {
+			if a%uint64(m) != b%uint64(m) {
+				return false
+			}
+		}
+		return true
+	}
+	var out []string
+	var target uint64
+	for i := 0; len(out) < n && i < 50_000_000; i++ {
+		name := fmt.Sprintf("%s%d", prefix, i)
+		h := mixQP(hash(name))
+		if len(out) == 0 {
+			target = h
+			out = append(out, name)
+		} else if same(h, target) {
+			out = append(out, name)
+		}
+	}
+	bucketCache[key] = out
+	return append([]string{}, out...)
 }
